@@ -43,25 +43,28 @@ def judge(res, ref, items, label):
 def exec_case(case):
     """Run one recorded case (dict) and return (problems, res)."""
     items = P.make_items(case["k"], case.get("salt", 0))
-    if case.get("order"):
-        items = [items[i] for i in case["order"]]
-        for j, it in enumerate(items):
-            it["id"] = j
     names = tuple(case["names"])
     ref = P.Reference(names, case.get("cms_type", "linear"))
     res = P.run_sim(items, case["w"], names, assign=case.get("assign"),
                     choices=case.get("choices", ()), cms_type=case.get("cms_type", "linear"),
-                    kwargs={"state": {}}, want_objects=True)
+                    kwargs={"state": {}}, want_objects=True, order=case.get("order"))
     probs = judge(res, ref, items, "")
     if not probs and case.get("expect_outcome") is not None:
         if _norm(res["outcome"]) != case["expect_outcome"]:
             probs = ["a schedule deviation changed the outcome for the same assignment"]
+    res["unrealised"] = False
     if not probs and case.get("assign") is not None and res["error"] is None:
         got = [w for j, w in sorted(res["delivered"]) if j < case["k"]]
         if got != list(case["assign"]):
-            raise MachineryError(f"assignment not realised: wanted {case['assign']} got {got}")
+            # the directed work queue could not impose the assignment (a worker left early);
+            # judged at the end of the run: on a tree without violations this must not happen
+            res["unrealised"] = True
+            UNREALISED.append((list(case["assign"]), got))
     res.pop("objects", None)
     return probs, res
+
+
+UNREALISED = []
 
 
 def _norm(outcome):
@@ -72,6 +75,7 @@ def task(arg):
     """All assignments for one (k, w, names, cms_type)."""
     k, w, names, cms_type, salt = arg
     quiet_shm()
+    UNREALISED.clear()
     out = []
     n = 0
     multi = 0
@@ -87,7 +91,7 @@ def task(arg):
         if probs and len(out) < 3:
             out.append((case, f"k={k} w={w} {'+'.join(names)}({cms_type}) assign={list(assign)}: {probs[0]}"))
     return dict(k=k, w=w, names=names, cms_type=cms_type, executions=n, multi=multi,
-                outcomes=len(outcomes)), out
+                outcomes=len(outcomes), unrealised=len(UNREALISED)), out
 
 
 def order_task(arg):
@@ -175,8 +179,8 @@ if __name__ == "__main__":
     spec = json.loads(sys.argv[1])
     items = P.make_items(spec["k"], spec["salt"])
     names = tuple(spec["names"])
-    r = H.parallel_add(items, P.cb_update, n_workers=spec["w"], **P.arg_combo(names),
-                       record_dir=spec["dir"], state={})
+    r = H.parallel_add(list(range(len(items))), P.cb_update, n_workers=spec["w"],
+                       **P.arg_combo(names), table=items, record_dir=spec["dir"], state={})
     out, objs = P.snapshot(r, names)
     def hx(o):
         if isinstance(o, bytes): return o.hex()
@@ -249,10 +253,10 @@ def generator_probe(rep):
     items = P.make_items(3)
 
     def gen():
-        yield from items
+        yield from range(len(items))
 
     names = ("hll",)
-    res = P.run_sim(gen(), 2, names, kwargs={"state": {}}, want_objects=True)
+    res = P.run_sim(items, 2, names, kwargs={"state": {}}, want_objects=True, items=gen())
     rep.evals()
     if res["error"] is not None:
         kind, msg = res["error"]
@@ -337,14 +341,20 @@ def _explore(rep, salt, reals):
         jobs.append((5, 3, ("cms", "hh"), "log16", salt))
     res = run_tasks(__name__, "task", jobs)
     execs = 0
+    unreal = 0
     for st, viol in res:
         rep.violations.extend(viol)
         execs += st["executions"]
+        unreal += st.get("unrealised", 0)
         rep.nontrivial_n(st["multi"])
         rep.add("outcomes_sum", st["outcomes"])
         rep.part(f"assign-k{st['k']}-w{st['w']}-{'+'.join(st['names'])}-{st['cms_type']}",
                  executions=st["executions"], distinct_outcomes=st["outcomes"])
     print(f"  (a) {execs} executions over {len(jobs)} (k, w, sketches) systems", flush=True)
+    rep.set("assignments_not_realised", unreal)
+    if unreal and not rep.violations:
+        raise MachineryError(f"{unreal} assignment vectors could not be imposed although no "
+                             f"execution violated the property")
     rep.set("states", execs)
     rep.set("transitions", execs)
     # (b)
